@@ -14,17 +14,42 @@ pub trait Prims {
 
 pub struct P<E: Engine>(pub E);
 
+/// Runs `f` on a copy of `data` that starts `off` bytes after a 64-byte boundary, `off` rotating through 0, 13, 26, …
+/// from call to call (`[u8; 64]` has alignment 1: a caller-owned `ShardsRefMut` may sit at ANY address, and the primitives
+/// must not depend on where — the crate's own buffers always come aligned from the allocator), then copies the result back.
+fn at_rotating_offset(data: &mut [[u8; 64]], f: impl FnOnce(&mut [[u8; 64]])) {
+    thread_local! { static OFF: std::cell::Cell<usize> = std::cell::Cell::new(0); }
+    let off = OFF.with(|o| { let v = o.get(); o.set((v + 13) % 64); v });
+    if off == 0 {
+        return f(data);
+    }
+    let n = data.len();
+    let mut buf = vec![0u8; n * 64 + 128];
+    let start = (64 - buf.as_ptr() as usize % 64) % 64 + off;
+    buf[start..start + n * 64].copy_from_slice(data.as_flattened());
+    {
+        // SAFETY: `[u8; 64]` has alignment 1 and the range lies inside `buf`
+        let s: &mut [[u8; 64]] = unsafe { std::slice::from_raw_parts_mut(buf.as_mut_ptr().add(start).cast::<[u8; 64]>(), n) };
+        f(s);
+    }
+    data.as_flattened_mut().copy_from_slice(&buf[start..start + n * 64]);
+}
+
 impl<E: Engine> Prims for P<E> {
     fn fft(&self, data: &mut [[u8; 64]], count: usize, len64: usize, pos: usize, size: usize, trunc: usize, delta: usize) {
-        let mut r = ShardsRefMut::new(count, len64, data);
-        self.0.fft(&mut r, pos, size, trunc, delta);
+        at_rotating_offset(data, |d| {
+            let mut r = ShardsRefMut::new(count, len64, d);
+            self.0.fft(&mut r, pos, size, trunc, delta);
+        });
     }
     fn ifft(&self, data: &mut [[u8; 64]], count: usize, len64: usize, pos: usize, size: usize, trunc: usize, delta: usize) {
-        let mut r = ShardsRefMut::new(count, len64, data);
-        self.0.ifft(&mut r, pos, size, trunc, delta);
+        at_rotating_offset(data, |d| {
+            let mut r = ShardsRefMut::new(count, len64, d);
+            self.0.ifft(&mut r, pos, size, trunc, delta);
+        });
     }
     fn mul(&self, x: &mut [[u8; 64]], log_m: u16) {
-        self.0.mul(x, log_m);
+        at_rotating_offset(x, |d| self.0.mul(d, log_m));
     }
     fn eval_poly(&self, e: &mut [u16; 65536], trunc: usize) {
         E::eval_poly(e, trunc);
